@@ -326,7 +326,7 @@ def examine_parse(case):
     return out
 
 
-def gen_structured(rng):
+def gen_structured(rng, literals=True):
     n = rng.choice([1, 1, 2, 2, 2, 3, 3, 4])
     sep = rng.choice([':', ':', ';'])
     fs = []
@@ -353,6 +353,10 @@ def gen_structured(rng):
         fs[i] = [' ' + fs[i], fs[i] + ' ', '+' + fs[i], '\t' + fs[i], ' +' + fs[i] + ' ', fs[i]][k]
         if k == 5:
             fs[-1] = fs[-1] + '\n'
+    if literals and rng.randrange(15) == 0:
+        # fields that other number constructors would take (fractions, exponents, underscores, infinities): junk here
+        i = rng.randrange(len(fs))
+        fs[i] = rng.choice(['1/0', '0/0', '3/4', '7/0', '1e3', '1_0', 'inf', 'nan', '-1', '0x10', '1/', '/2', '1e400', '١٢'])
     t = sep.join(fs)
     if rng.randrange(12) == 0:
         t = t.replace(sep, ':;'[rng.randrange(2)], 1)
